@@ -123,7 +123,11 @@ def _s2s(h, pairing="PM-PM", seed=0):
     from cardillo.math import Exp_SO3_quat
     rng = np.random.default_rng(seed + 11)
     s1, s2 = pairing.split("-")
-    a = lib.make_rb(rng, "a") if s1 == "RB" else lib.make_pm(rng, "a")
+    if s1 == "F":
+        # a sphere carried by a frame with prescribed (translating) motion: the contact geometry depends on t explicitly
+        a = lib.Motion(h, "fa", rotating=False, A0=np.eye(3)).frame(0.0, name="a")
+    else:
+        a = lib.make_rb(rng, "a") if s1 == "RB" else lib.make_pm(rng, "a")
     b = lib.make_rb(rng, "b") if s2 == "RB" else lib.make_pm(rng, "b")
     r1, r2, mu = h.pos("r1"), h.pos("r2"), h.pos("mu")
     con = Sphere2Sphere(a, b, r1, r2, mu, e_N=0.5, e_F=0.0)
@@ -135,10 +139,21 @@ def _s2s(h, pairing="PM-PM", seed=0):
     return sysm, a, b, con, r1, r2, mu
 
 
+def _warm_up(h, sysm, con, q, u):
+    """evaluations at ANOTHER time with the same coordinates beforehand (as a solver sweeping t does): results at t must not depend on them"""
+    tw = h.real("t_before")
+    con.g_N(tw, q[con.qDOF])
+    con.g_N_dot(tw, q[con.qDOF], u[con.uDOF])
+    con.gamma_F(tw, q[con.qDOF], u[con.uDOF])
+    con.W_N(tw, q[con.qDOF])
+
+
 def s2s_geom(h, pairing="PM-PM", seed=0):
     sysm, a, b, con, r1, r2, mu = _s2s(h, pairing, seed)
     t, q, u, ud = lib.sys_state(h, sysm)
     ql, ul = q[con.qDOF], u[con.uDOF]
+    if pairing.startswith("F"):
+        _warm_up(h, sysm, con, q, u)
     c1, c2 = a.r_OP(t, q[a.qDOF]), b.r_OP(t, q[b.qDOF])
     gN = con.g_N(t, ql)[0]
     d = gN + r1 + r2
@@ -169,6 +184,8 @@ def s2s_hier(h, pairing="PM-PM", clause="g_N_dot", k=None, seed=0):
     gN = lambda t_, q_: con.g_N(t_, q_[qD])
     gNd = lambda t_, q_, u_: con.g_N_dot(t_, q_[qD], u_[uD])
     gF = lambda t_, q_, u_: con.gamma_F(t_, q_[qD], u_[uD])
+    if pairing.startswith("F"):
+        _warm_up(h, sysm, con, q, u)
     if clause == "g_N_dot":
         h.eq("g_N_dot = d/dt g_N", h.D(gN, (t, q), (one, qd)), gNd(t, q, u))
         h.eq("W_N = (d g_N_dot / d u)^T", h.D(lambda u_: gNd(t, q, u_), (u,), (du,)), con.W_N(t, q[qD]).T @ du[uD])
@@ -208,12 +225,12 @@ def cases(tier, seed):
         for part in ("normal", "friction", "friction_dot"):
             cs.append(Case(f"s2p/{sub}/{part}", s2p_hier, dict(sub=sub, part=part, seed=seed), timeout=T))
         cs.append(Case(f"s2p/{sub}/system", system_entry_points, dict(kind="s2p", sub=sub, seed=seed), timeout=T))
-    pairings = ("PM-PM", "PM-RB", "RB-PM") if tier == "quick" else ("PM-PM", "PM-RB", "RB-PM", "RB-RB")
+    pairings = ("PM-PM", "PM-RB", "RB-PM", "F-PM") if tier == "quick" else ("PM-PM", "PM-RB", "RB-PM", "F-PM", "F-RB", "RB-RB")
     FAST = ("g_N_dot", "g_N_ddot", "Wla_N_q", "n_q", "W_F", "gamma_F_dot")
     PER_DIR = ("t1t2_q", "gamma_F_q", "Wla_F_q")
     rng = np.random.default_rng(seed)
     for p in pairings:
-        nq = sum(7 if s == "RB" else 3 for s in p.split("-"))
+        nq = sum({"RB": 7, "PM": 3, "F": 0}[s] for s in p.split("-"))
         cs.append(Case(f"s2s/{p}/geometry", s2s_geom, dict(pairing=p, seed=seed), timeout=T))
         for cl in FAST:
             if tier == "quick" and cl == "gamma_F_dot" and p != "PM-PM":
